@@ -4,4 +4,4 @@ Require Import ExtrOcamlBasic.
 Require Import Base Overlap Suggestion Rebase C13Callers.
 Extraction Language OCaml.
 Extraction "../ocaml/gen/c13_model.ml" run_remove_overlaps run_apply run_rebase
-  run_wasm_lint run_fix_all run_currency.
+  run_wasm_lint run_fix_all run_currency run_cli_report run_merge_ids.
